@@ -65,6 +65,11 @@ def weight(cfg, dyn, p):
     return w
 
 
+def swap_space(M, move1):
+    """Length limits (for [0-], [0+]) of the space on which the zero swap is stationary."""
+    return M, M
+
+
 def swap_configs(ctx):
     q = ctx.quick
     return [("sym", 3, 6 if q else 8, "sh", None), ("drift", 3, 6 if q else 8, "sh", None),
@@ -88,8 +93,10 @@ def run(ctx):
     sjobs = []
     for name, B, M, move1, cap in scfgs:
         dyn = c09.mkdyn(name, B)
-        for o0 in lp.enumerate_paths(dyn, "minus", M - 1):
-            for o1 in lp.enumerate_paths(dyn, "plus", M - 1, i=0):
+        # the zero swap's own space: L <= maxlength for a shooting [0+], L <= maxlength-1 for [0-]... see swap_space()
+        l0, l1 = swap_space(M, move1)
+        for o0 in lp.enumerate_paths(dyn, "minus", l0):
+            for o1 in lp.enumerate_paths(dyn, "plus", l1, i=0):
                 sjobs.append((name, B, M, o0, o1, move1, cap, True))
     with mp.get_context("fork").Pool(min(16, os.cpu_count() or 1)) as pool:
         res = pool.map(c09._job, jobs, chunksize=1)
@@ -237,8 +244,9 @@ def replay(data):
         name, B, M, move1, cap = data["key"]
         dyn = c09.mkdyn(name, B)
         rows = {}
-        for o0 in lp.enumerate_paths(dyn, "minus", M - 1):
-            for o1 in lp.enumerate_paths(dyn, "plus", M - 1, i=0):
+        l0, l1 = swap_space(M, move1)
+        for o0 in lp.enumerate_paths(dyn, "minus", l0):
+            for o1 in lp.enumerate_paths(dyn, "plus", l1, i=0):
                 K, _, _ = moves.swap_kernel(dyn, o0, o1, M, move1=move1, cap=cap)
                 rows[(o0, o1)] = K
         cfg1 = (name, B, "plus", 0, move1, M, cap, None, False, False)
